@@ -14,7 +14,7 @@ from ..typeterms import CONCRETE, values
 from .c01 import union_sigs
 from .c03 import shape
 
-WRAP = ("newtype", "alias", "salias", "final", "classvar")
+WRAP = ("newtype", "alias", "salias", "final", "classvar", "noinit", "annotated")
 
 
 def strip(T):
@@ -50,7 +50,8 @@ def decompose_unmarshal(T, x, defs, env):
         return ms, ins, lambda rs: {rs[i]: rs[i + 1] for i in range(0, len(rs), 2)}
     if k == "cls":
         d = defs[T["c"]]
-        ftypes = {f[0]: f[1] for f in d["fields"] if f[1]["k"] != "classvar"}     # class-level names are not members
+        # class-level names are not members; a field declared with init=False is no constructor parameter
+        ftypes = {f[0]: f[1] for f in d["fields"] if f[1]["k"] not in ("classvar", "noinit")}
         if isinstance(x, dict):
             items = [(a, b) for a, b in x.items() if a in ftypes]
         elif isinstance(x, list) and x and all(isinstance(p, (list, tuple)) and len(p) == 2 for p in x):
